@@ -5,6 +5,7 @@ package main
 // writes evidence and replay files.
 
 import (
+	"golang.org/x/tools/go/ssa"
 	"encoding/json"
 	"fmt"
 	"os"
@@ -174,9 +175,33 @@ func runCheck(prop, tier string, rebaseline bool) int {
 	var smtObls []*Obligation
 	usedExt := map[string]bool{}
 	// stage 1: functions whose contract serves the property
+	// a precondition clause tagged with the property is discharged at the call sites: the callers serve it too
+	preProp := map[*ssa.Function]bool{}
+	for _, name := range specs.Order {
+		for _, c := range specs.Lookup(name).Requires {
+			if hasProp(c.Props, prop) && ld.funcs[name] != nil {
+				preProp[ld.funcs[name]] = true
+			}
+		}
+	}
+	callsPre := func(fn *ssa.Function) bool {
+		if fn == nil || len(preProp) == 0 {
+			return false
+		}
+		for _, b := range fn.Blocks {
+			for _, in := range b.Instrs {
+				if ci, ok := in.(ssa.CallInstruction); ok {
+					if cal := ci.Common().StaticCallee(); cal != nil && preProp[cal] {
+						return true
+					}
+				}
+			}
+		}
+		return false
+	}
 	for _, name := range specs.Order {
 		sp := specs.Lookup(name)
-		if !specServes(sp, prop) {
+		if !specServes(sp, prop) && !callsPre(ld.funcs[name]) {
 			continue
 		}
 		if sp.Trusted {
